@@ -305,6 +305,14 @@ def handle (req : Json) : Except String Json := do
         ("gen_rhs_valid", Json.bool (match lay, Impl.genRhs m π false, Impl.genRhs m π true with
           | some L, some p0, some p1 => checkRhs m L p0 && checkRhs m L p1
           | _, _, _ => true)),
+        ("helper_clash_free", Json.bool (Impl.checkNoHelperClash m)),
+        ("gen_rl_valid", Json.bool (match lay with
+          | some L =>
+            let stiff := (m.stateNames.zipIdx.filter (fun x => x.2 % 2 == 0)).map (·.1)
+            [false, true].all fun ru =>
+              (match Impl.genGRL m π ru (.num 1 (-8)) with | some p => checkScheme m L p | none => true) &&
+              (match Impl.genHybrid m π ru (.num 1 (-8)) stiff with | some p => checkScheme m L p | none => true)
+          | none => true)),
         ("sorted_removed", match Impl.sortedAssignments m π true with | some l => jstrs l | none => Json.null),
         ("mentioned", jstrs (Impl.mentioned m))] ++ modelJ ld))
   | "gen" =>
